@@ -190,6 +190,19 @@ Aux:
 	return lam.BoundCall(ss, depth)
 }
 
+// makeUndefined turns the Lambda into the placeholder of a function that is
+// not defined. A call accepts any arguments and fails as an undefined
+// function until Package.DefLambda patches the Lambda.
+func (lam *Lambda) makeUndefined(name string) {
+	lam.Doc = &FuncDoc{
+		Name: name,
+		Args: []*DocArg{{Name: AmpRest}, {Name: "args"}},
+	}
+	lam.Forms = List{Undefined(name)}
+	lam.Closure = nil
+	lam.Macro = false
+}
+
 // isKeyParam returns true if name is one of the &key parameters. Other
 // keywords in a call are allowed but do not bind anything.
 func (lam *Lambda) isKeyParam(name string) bool {
